@@ -11,6 +11,8 @@ MALFORMED = ('none', 'notpair', 'triple', 'badstatus', 'nonmapping')
 # a mapping that cannot be merged: it replaces the task's own entry (a mapping
 # holding its status and clocks) by something that is not a mapping
 UNMERGEABLE = ('clobber',)
+# an exception that is not an Exception: a user function calling sys.exit()
+EXITING = ('sysexit',)
 OUTCOMES_WELL = ('ok', 'raise', 'failed')
 
 TICKS = (1e-6, 1e-5, 1e-4, 1e-3, 1e-2)
@@ -59,6 +61,8 @@ def gen_scenario(rng, *, family='well', cyclic=False, init_env=False,
             elif family == 'unmergeable':
                 out = rng.choice(UNMERGEABLE + UNMERGEABLE + MALFORMED +
                                  ('raise', 'failed'))
+            elif family == 'exiting':
+                out = rng.choice(EXITING + EXITING + ('raise', 'failed'))
             else:
                 out = rng.choice(MALFORMED + ('raise', 'failed'))
         else:
@@ -353,6 +357,8 @@ def build_tasks(scn, mods, recorder, run_tag='r', run_no=0):
         recorder.exit(sim, rec)
         if specs[i]['outcome'] == 'raise':
             raise ProbeError('scripted failure of %s' % specs[i]['name'])
+        if specs[i]['outcome'] == 'sysexit':
+            raise SystemExit(3)
         return scripted_return(scn, i, status_enum, run_tag)
 
     class ProbeTask(task_mod.Task):
